@@ -26,12 +26,14 @@ REQUIRED = {
     "quick": {"fundamental_points_checked": 15000, "class/shocked_step": 150, "class/unshocked_other_market_step": 5000,
               "class/continuation_after_shock": 100, "class/order_replaced": 40, "class/first_order_went_elsewhere": 20,
               "class/disabled_shock_run": 10, "class/trigger_time_without_target_order": 10,
-              "orders_compared_with_request": 5000, "class/shock_window_past_session_end": 5},
+              "orders_compared_with_request": 5000, "class/shock_window_past_session_end": 5,
+              "class/shock_on_last_step_of_a_generation_chunk": 3},
     "thorough": {"fundamental_points_checked": 400000, "class/shocked_step": 4000,
                  "class/unshocked_other_market_step": 150000, "class/continuation_after_shock": 3000,
                  "class/order_replaced": 1200, "class/first_order_went_elsewhere": 600,
                  "class/disabled_shock_run": 300, "class/trigger_time_without_target_order": 300,
-                 "orders_compared_with_request": 150000, "class/shock_window_past_session_end": 150},
+                 "orders_compared_with_request": 150000, "class/shock_window_past_session_end": 150,
+                 "class/shock_on_last_step_of_a_generation_chunk": 90},
 }
 
 
@@ -70,8 +72,15 @@ def gen_case(rng, tier, idx):
     ns = rng.choice([1, 2, 3])
     starts = []
     total = 0
+    long_run = rng.random() < 0.25
+    if long_run:
+        # runs that cross the 100-step generation chunks: few quiet agents, long sessions
+        for k in list(cfg):
+            if isinstance(cfg[k], dict) and "program" in cfg[k]:
+                cfg[k]["numAgents"] = 1
+                cfg[k]["program"]["p_act"] = 0.3
     for i in range(ns):
-        st = rng.choice([3, 6, 12, 20])
+        st = rng.choice([3, 6, 12, 20]) if not long_run else rng.choice([60, 100, 101, 130])
         starts.append(total)
         total += st
         pl, ex = rng.choice([(True, True), (True, True), (True, False), (False, False)])
@@ -85,6 +94,11 @@ def gen_case(rng, tier, idx):
         name = "SH%d" % j
         if rng.random() < 0.55:
             off = rng.choice([0, steps - 1, rng.randrange(steps)])
+            if long_run and rng.random() < 0.7:
+                # absolute times on and around the chunk boundaries
+                cand = [a - starts[si] for a in (98, 99, 100, 101, 198, 199, 200, 201, 299) if 0 <= a - starts[si] < steps]
+                if cand:
+                    off = rng.choice(cand)
             e = {"class": "FundamentalPriceShock", "target": rng.choice(spots), "triggerTime": off,
                  "priceChangeRate": rng.choice([-0.5, -0.2, -0.01, 0.01, 0.1, 0.5]),
                  "shockTimeLength": rng.choice([1, 1, 2, 3, 5])}
@@ -220,6 +234,8 @@ class C14Monitor:
                 if nsh:
                     res.count("class/shocked_step")
                     self.applied += 1
+                    if t % 100 == 99 and n == "MarketStepBeginLog":
+                        res.count("class/shock_on_last_step_of_a_generation_chunk")
                 elif self.fshocks:
                     res.count("class/unshocked_other_market_step")
                 if not close(v, base * sc):
